@@ -231,19 +231,19 @@ def testList (r : TRepo K A F N C A' G) (tsel : K → Bool) (fl : Flags) (out0 o
           (x.1, x.2.1, (t.key, some y.2.2) :: x.2.2)
     else testList r tsel fl out0 out' ran ts res rc
 
-variable (bfx : Build.Facts) (mv : C → C → C) (exec : A → List (N × C) → C) (ruleSer : A → S)
+variable (bfx : Build.Facts) (mv rs : C → C → C) (exec : A → List (N × C) → C) (ruleSer : A → S)
 
 /-- The build phase of an invocation: with the cache configured `buildC`, else `build`. -/
 def buildPhase (r : TRepo K A F N C A' G) (sel : K → Bool) (out : Out K C S N H) (bc : Build.Cache K C S N H) :
     Out K C S N H × Build.Cache K C S N H × List K :=
-  if r.cacheOn then buildC bfx mv exec ruleSer pathSer r.repo sel out bc
+  if r.cacheOn then buildC bfx mv rs exec ruleSer pathSer r.repo sel out bc
   else ((build bfx mv exec ruleSer pathSer r.repo sel out).1, bc, (build bfx mv exec ruleSer pathSer r.repo sel out).2)
 
 /-- One `plz test`: build `sel` (the closure of the requested tests), then test the requested ones.
     Returns the new state, the build actions executed and the per-test reports. -/
 def testAll (r : TRepo K A F N C A' G) (sel tsel : K → Bool) (fl : Flags) (st : TState K C S N H (RStamp S' G N H)) :
     TState K C S N H (RStamp S' G N H) × List K × List (K × Option Report) :=
-  let b := buildPhase pathSer bfx mv exec ruleSer r sel st.out st.bcache
+  let b := buildPhase pathSer bfx mv rs exec ruleSer r sel st.out st.bcache
   let t := testList fx ruleSerRT pathSer outcome r tsel fl st.out b.1 b.2.2 r.repo.targets st.res st.rcache
   (⟨b.1, t.1, b.2.1, t.2.1⟩, b.2.2, t.2.2)
 
@@ -251,7 +251,7 @@ def TState.empty : TState K C S N H R := ⟨fun _ => none, fun _ => none, fun _ 
 
 /-- A fresh run: the same tree in a fresh directory (empty plz-out, no stored results, empty cache), default flags. -/
 def freshRun (r : TRepo K A F N C A' G) (sel tsel : K → Bool) : List (K × Option Report) :=
-  (testAll fx ruleSerRT pathSer outcome bfx mv exec ruleSer r sel tsel {} TState.empty).2.2
+  (testAll fx ruleSerRT pathSer outcome bfx mv rs exec ruleSer r sel tsel {} TState.empty).2.2
 
 /-- One step of a user history. Edits to the tree (including switching the cache on or off in .plzconfig) show up in
     the `TRepo` of the next invocation. -/
@@ -266,10 +266,10 @@ inductive TOp (K A F N C S H A' G R : Type) where
 def runHistT : List (TOp K A F N C S H A' G (RStamp S' G N H)) → TState K C S N H (RStamp S' G N H) →
     TState K C S N H (RStamp S' G N H)
   | [], st => st
-  | .test r sel tsel fl :: ops, st => runHistT ops (testAll fx ruleSerRT pathSer outcome bfx mv exec ruleSer r sel tsel fl st).1
+  | .test r sel tsel fl :: ops, st => runHistT ops (testAll fx ruleSerRT pathSer outcome bfx mv rs exec ruleSer r sel tsel fl st).1
   | .build r sel :: ops, st =>
-    runHistT ops ⟨(buildPhase pathSer bfx mv exec ruleSer r sel st.out st.bcache).1, st.res,
-                  (buildPhase pathSer bfx mv exec ruleSer r sel st.out st.bcache).2.1, st.rcache⟩
+    runHistT ops ⟨(buildPhase pathSer bfx mv rs exec ruleSer r sel st.out st.bcache).1, st.res,
+                  (buildPhase pathSer bfx mv rs exec ruleSer r sel st.out st.bcache).2.1, st.rcache⟩
   | .rmOut keep :: ops, st => runHistT ops ⟨fun k => if keep k then st.out k else none, st.res, st.bcache, st.rcache⟩
   | .rmRes keep :: ops, st => runHistT ops ⟨st.out, fun k => if keep k then st.res k else none, st.bcache, st.rcache⟩
   | .evictB keep :: ops, st => runHistT ops ⟨st.out, st.res, fun q => if keep q then st.bcache q else none, st.rcache⟩
